@@ -1,0 +1,151 @@
+//go:build verif
+
+package tlcp
+
+// Hooks for the handshake-message codec check (verification harness only): construct the
+// unexported message structs from exported field records, run their own marshal / unmarshal,
+// and copy the decoded fields back out.  Add-only; nothing here changes library behaviour.
+
+// VerifCodecMsg is the union of the fields of all handshake messages.
+type VerifCodecMsg struct {
+	// hellos
+	Vers         uint16
+	Random       []byte
+	SessionId    []byte
+	Cookie       []byte // dtlcp only (kept here so that both stacks share one record shape)
+	CipherSuites []uint16
+	Compression  []byte
+	ServerName   string
+	TAs          []TrustedAuthority
+	OCSP         bool
+	Curves       []uint16
+	SigAlgs      []uint16
+	ALPN         []string
+	ClientID     []byte
+	// server hello
+	CipherSuite       uint16
+	CompressionMethod uint8
+	OCSPResponse      []byte
+	ALPNProto         string
+	SNIAck            bool
+	// certificate / certificate request
+	Certificates [][]byte
+	CertTypes    []byte
+	CAs          [][]byte
+	// key exchanges, certificate verify, finished: the single opaque field
+	Blob []byte
+	// after an unmarshal: does marshal() of the same object return the input (raw cache)
+	RawIsInput bool
+}
+
+func verifCodecNew(kind string) handshakeMessage {
+	switch kind {
+	case "clientHello":
+		return new(clientHelloMsg)
+	case "serverHello":
+		return new(serverHelloMsg)
+	case "certificate":
+		return new(certificateMsg)
+	case "serverKeyExchange":
+		return new(serverKeyExchangeMsg)
+	case "certificateRequest":
+		return new(certificateRequestMsg)
+	case "serverHelloDone":
+		return new(serverHelloDoneMsg)
+	case "clientKeyExchange":
+		return new(clientKeyExchangeMsg)
+	case "certificateVerify":
+		return new(certificateVerifyMsg)
+	case "finished":
+		return new(finishedMsg)
+	}
+	return nil
+}
+
+// VerifCodecKinds lists the message kinds of this stack.
+func VerifCodecKinds() []string {
+	return []string{"finished", "serverHelloDone", "certificateVerify", "clientKeyExchange", "serverKeyExchange",
+		"certificate", "certificateRequest", "serverHello", "clientHello"}
+}
+
+// VerifCodecMarshal builds a fresh message of the given kind from v and marshals it.
+func VerifCodecMarshal(kind string, v *VerifCodecMsg) ([]byte, error) {
+	var m handshakeMessage
+	switch kind {
+	case "clientHello":
+		x := &clientHelloMsg{vers: v.Vers, random: v.Random, sessionId: v.SessionId, cipherSuites: v.CipherSuites,
+			compressionMethods: v.Compression, serverName: v.ServerName, trustedAuthorities: v.TAs, ocspStapling: v.OCSP,
+			alpnProtocols: v.ALPN, ibsdhClientID: v.ClientID}
+		for _, c := range v.Curves {
+			x.supportedCurves = append(x.supportedCurves, CurveID(c))
+		}
+		for _, s := range v.SigAlgs {
+			x.supportedSignatureAlgorithms = append(x.supportedSignatureAlgorithms, SignatureScheme(s))
+		}
+		m = x
+	case "serverHello":
+		m = &serverHelloMsg{vers: v.Vers, random: v.Random, sessionId: v.SessionId, cipherSuite: v.CipherSuite,
+			compressionMethod: v.CompressionMethod, ocspStapling: v.OCSP, ocspResponse: v.OCSPResponse,
+			alpnProtocol: v.ALPNProto, serverNameAck: v.SNIAck}
+	case "certificate":
+		m = &certificateMsg{certificates: v.Certificates}
+	case "serverKeyExchange":
+		m = &serverKeyExchangeMsg{key: v.Blob}
+	case "certificateRequest":
+		m = &certificateRequestMsg{certificateTypes: v.CertTypes, certificateAuthorities: v.CAs}
+	case "serverHelloDone":
+		m = &serverHelloDoneMsg{}
+	case "clientKeyExchange":
+		m = &clientKeyExchangeMsg{ciphertext: v.Blob}
+	case "certificateVerify":
+		m = &certificateVerifyMsg{signature: v.Blob}
+	case "finished":
+		m = &finishedMsg{verifyData: v.Blob}
+	default:
+		panic("verif: unknown message kind " + kind)
+	}
+	return m.marshal()
+}
+
+// VerifCodecUnmarshal runs the kind's unmarshal on a fresh object and copies the fields out.
+func VerifCodecUnmarshal(kind string, data []byte) (*VerifCodecMsg, bool) {
+	m := verifCodecNew(kind)
+	if m == nil {
+		panic("verif: unknown message kind " + kind)
+	}
+	if !m.unmarshal(data) {
+		return nil, false
+	}
+	v := &VerifCodecMsg{}
+	switch x := m.(type) {
+	case *clientHelloMsg:
+		v.Vers, v.Random, v.SessionId, v.CipherSuites, v.Compression = x.vers, x.random, x.sessionId, x.cipherSuites, x.compressionMethods
+		v.ServerName, v.TAs, v.OCSP, v.ALPN, v.ClientID = x.serverName, x.trustedAuthorities, x.ocspStapling, x.alpnProtocols, x.ibsdhClientID
+		for _, c := range x.supportedCurves {
+			v.Curves = append(v.Curves, uint16(c))
+		}
+		for _, s := range x.supportedSignatureAlgorithms {
+			v.SigAlgs = append(v.SigAlgs, uint16(s))
+		}
+	case *serverHelloMsg:
+		v.Vers, v.Random, v.SessionId, v.CipherSuite, v.CompressionMethod = x.vers, x.random, x.sessionId, x.cipherSuite, x.compressionMethod
+		v.OCSP, v.OCSPResponse, v.ALPNProto, v.SNIAck = x.ocspStapling, x.ocspResponse, x.alpnProtocol, x.serverNameAck
+	case *certificateMsg:
+		v.Certificates = x.certificates
+	case *serverKeyExchangeMsg:
+		v.Blob = x.key
+	case *certificateRequestMsg:
+		v.CertTypes, v.CAs = x.certificateTypes, x.certificateAuthorities
+	case *serverHelloDoneMsg:
+	case *clientKeyExchangeMsg:
+		v.Blob = x.ciphertext
+	case *certificateVerifyMsg:
+		v.Blob = x.signature
+	case *finishedMsg:
+		v.Blob = x.verifyData
+	}
+	if again, err := m.marshal(); err == nil && string(again) == string(data) {
+		v.RawIsInput = true
+	}
+	return v, true
+}
